@@ -1396,6 +1396,24 @@ def missing_field_raises_raw_exception(case, outcome, atoms):
 
 
 @explainer
+def mutation_on_unknown_model_silently_skipped(case, outcome, atoms):
+    """get_app_pending_mutations() drops every mutation whose model is not among
+    the models that changed between the stored and the current signature - also
+    one that names a model which does not exist at all.  When the rest of the
+    evolution still reaches the target (the dropped mutation was redundant, e.g.
+    a ChangeField on a field a later DeleteField removes), the evolve command
+    accepts an evolution that names a missing model.  (The same filter is how
+    mutations for models routed to another database are skipped, C16.)"""
+    if (case.get('perturb') or {}).get('kind') != 'rename_model_arg':
+        return atoms
+    if any(a[0] in ('accepted_but_schema_differs', 'accepted_but_signature_differs')
+           for a in atoms):
+        return atoms
+    return [a for a in atoms if not (a[0] == 'accepted_but_must_be_rejected' and
+                                     a[1] == 'rename_model_arg:missing')]
+
+
+@explainer
 def dependency_on_evolution_without_effect(case, outcome, atoms):
     """Same root cause as F-C04-6: only tasks that require evolution put nodes
     into the dependency graph.  When another app's evolution depends on an
